@@ -35,20 +35,34 @@ def main():
         return mod.replay(ctx, a.replay)
     try:
         from lib import translate
-        translate.run(ctx)
+        try:
+            translate.run(ctx)
+        except translate.TranslateError as ex:
+            # a translator no longer understands the source: the regenerated part of the model is stale, the tie is broken.
+            # keep going with the last generated Gen/ so that the search can still look for a failing input.
+            ctx.translate_error = str(ex)
+            ctx.violation("translator cannot regenerate the model from the current sources: " + str(ex)[:600],
+                          dict(kind="translator", error=str(ex)[:3000]), no_input=True)
+        C.CURRENT_CTX = ctx
         rc = mod.run(ctx)
         if rc == 99:
             print("[%s] a proof obligation or correspondence no longer checks; searching for a failing input with the enlarged budget ..." % prop)
             ctx2 = C.Ctx(prop, tier, seed)
+            if getattr(ctx, "translate_error", None):
+                ctx2.translate_error = ctx.translate_error
+                ctx2.violation("translator cannot regenerate the model from the current sources: " + ctx.translate_error[:600],
+                               dict(kind="translator", error=ctx.translate_error[:3000]), no_input=True)
             ctx2.escalated = True
             ctx2.quick = False
             ctx2.t0 = ctx.t0
             ctx2.notes.append("escalated search: thorough budget used after a broken obligation/correspondence in the quick run")
+            C.CURRENT_CTX = ctx2
             rc = mod.run(ctx2)
     except C.BuildError as ex:
         # the harness no longer compiles against /repo: the tie is broken
         ctx.violation("harness does not build against the current sources: " + str(ex)[:1500],
                       dict(kind="harness-build", log=str(ex)[-6000:]), no_input=True)
+        ctx.escalated = True
         rc = ctx.finish(level=getattr(mod, "LEVEL", "proof"), checker_cmd=getattr(mod, "CHECKER", ""))
     except Exception:
         traceback.print_exc()
